@@ -95,6 +95,7 @@ func domainFor(prop string) domain {
 		d.g = []int{1, 1, 2, 4}
 	case "C07":
 		d.pFault, d.perUnit, d.panics, d.elemFault = 1, 0.3, 0.3, 0.15
+		d.predPanic = 0.15 // a panicking predicate is a failure of its task
 	case "C08":
 		d.pFault, d.perUnit, d.panics, d.elemFault = 0.9, 0.35, 0.3, 0.25
 	case "C05", "C06":
